@@ -417,11 +417,13 @@ impl Tracer {
                                 .breakpoints
                                 .iter()
                                 .find(|brkpt| brkpt.addr == current_pc);
-                            debug_assert!(
-                                mb_hit_brkpt.is_some(),
-                                "the interrupt caught but the breakpoint was not found"
-                            );
                             let Some(&brkpt) = mb_hit_brkpt else {
+                                // the trap of a (temporary) breakpoint that was removed while the trap
+                                // was still pending: the thread has reported a group-stop interrupt first.
+                                // The pc is back at the restored instruction, let the thread go on from it.
+                                self.tracee_ctl
+                                    .tracee_ensure_mut(pid)
+                                    .set_stop(StopType::Interrupt);
                                 return Ok(None);
                             };
 
